@@ -3,12 +3,13 @@ package main
 // C08: each Send / SendRaw / SendIQ puts exactly the serialised stanza on the wire
 // once, whole, also concurrently; failed writes are reported.  Model: Model/Send.v.
 //
-// Four case modes:
+// Five case modes:
 //   seq    op history on a real Client / Component over a recording transport whose
 //          Write is XMPPTransport.Write's (readWriter = socket, or the real streamLogger
 //          around socket + log), write faults (error after n bytes / short count) on
 //          the socket and on the log
 //   logger Write calls straight on xmpp.VerifStreamLogger(conn, log)
+//   mem    concurrent senders on the in-memory recording transport
 //   tcp    concurrent senders over the real XMPPTransport to a loopback TCP sink
 //   ws     concurrent senders over the real WebsocketTransport to a loopback
 //          websocket sink (nhooyr.io/websocket, the module /repo uses)
@@ -82,7 +83,7 @@ func (c08) ID() string    { return "C08" }
 func (c08) RunFn() string { return "run_C08" }
 func (c08) Workers() int  { return 4 }
 func (c08) Rule() string {
-	return "seq: histories of 1-12 ops (Send of Message/Presence/IQ with random attributes and text incl. XML metacharacters, non-ASCII, control bytes, 1 B-20 kB; SMRequest/SMAnswer; SendRaw; SendIQ get/set/result/error) on a real Client (stream management on/off) or Component, connected or not, whose transport Write is readWriter.Write with readWriter = recording socket or the real streamLogger around socket+log, with error-after-n-bytes and short-count faults at random calls of socket and log; logger: Write sequences straight on the stream logger; tcp: 8-16 goroutines x 50-200 stanzas with unique ids over the real XMPPTransport to a loopback TCP sink that re-parses the byte stream with encoding/xml (client SM on/off, component; traffic log on/off); ws: the same over the real WebsocketTransport to a loopback nhooyr.io/websocket sink (one text message per stanza). distinct = configuration + op-kind/size-class/fault sequence; non-trivial = at least 2 ops reached the transport (seq), 2 writes (logger), 2 senders (tcp/ws)"
+	return "seq: histories of 1-12 ops (Send of Message/Presence/IQ with random attributes and text incl. XML metacharacters, non-ASCII, control bytes, 1 B-20 kB; SMRequest/SMAnswer; SendRaw; SendIQ get/set/result/error) on a real Client (stream management on/off) or Component, connected or not, whose transport Write is readWriter.Write with readWriter = recording socket or the real streamLogger around socket+log, with error-after-n-bytes and short-count faults at random calls of socket and log; logger: Write sequences straight on the stream logger; mem: 2-16 goroutines x 100-500 tiny stanzas on the in-memory recording transport (client SM on, component; logger on/off); tcp: 8-16 goroutines x 50-200 stanzas with unique ids over the real XMPPTransport to a loopback TCP sink that re-parses the byte stream with encoding/xml (client SM on/off, component; traffic log on/off); ws: the same over the real WebsocketTransport to a loopback nhooyr.io/websocket sink (one text message per stanza). distinct = configuration + op-kind/size-class/fault sequence; non-trivial = at least 2 ops reached the transport (seq), 2 writes (logger), 2 senders (mem/tcp/ws)"
 }
 
 // ---------------------------------------------------------------- content
@@ -744,6 +745,9 @@ func c08StressOp(in *c08In, s, q int) c08Op {
 	default:
 		n = r.Intn(in.MaxLen + 1)
 	}
+	if n > in.MaxLen {
+		n = in.MaxLen
+	}
 	o := c08Op{ID: id, Seed: r.Int63n(1 << 40), Len: n, To: "peer@localhost/r", From: "u@localhost"}
 	switch c := r.Intn(10); {
 	case c < 4:
@@ -780,47 +784,63 @@ func (l *c08LogRec) Write(p []byte) (int, error) {
 func c08Anomaly(kind, msg string) Sx { return L(SBytes("anomaly"), SBytes(kind), SBytes(msg)) }
 
 func c08RunStress(in *c08In) Sx {
-	ws := in.Mode == "ws"
+	ws, mem := in.Mode == "ws", in.Mode == "mem"
 	var sink *c08Sink
 	var err error
-	if ws {
-		sink, err = c08WSSink()
-	} else {
-		sink, err = c08TCPSink()
-	}
-	if err != nil {
-		return c08Anomaly("harness", "sink: "+err.Error())
-	}
-	defer sink.stop()
-	tc := xmpp.TransportConfiguration{Address: sink.addr, Domain: "localhost", ConnectTimeout: 1}
 	var tr xmpp.Transport
-	if in.Component {
-		tr, err = xmpp.NewComponentTransport(tc)
-		if err != nil {
-			return c08Anomaly("harness", "transport: "+err.Error())
-		}
-	} else {
-		tr = xmpp.NewClientTransport(tc)
-	}
 	var logrec *c08LogRec
 	var logfile *os.File
-	if in.Log {
-		if in.Seed%2 == 0 {
+	var memSock *c08Writer
+	tc := xmpp.TransportConfiguration{Address: "localhost:1", Domain: "localhost", ConnectTimeout: 1}
+	if mem {
+		// in-memory: the recording socket (one Write call = one atomic append) behind
+		// XMPPTransport.Write's delegation, optionally through the real streamLogger
+		memSock = c08NewWriter(nil, nil)
+		mt := &c08Transport{stubTransport: newStub(nil, nil)}
+		if in.Log {
 			logrec = &c08LogRec{calls: map[string]int{}}
-			tr.LogTraffic(logrec)
+			mt.rw = xmpp.VerifStreamLogger(c08RW{memSock}, logrec)
 		} else {
-			// a real file, as Config.StreamLogger is
-			f, err := os.CreateTemp(c08OutDir(), "c08log")
-			if err != nil {
-				return c08Anomaly("harness", "log file: "+err.Error())
-			}
-			logfile = f
-			defer func() { f.Close(); os.Remove(f.Name()) }()
-			tr.LogTraffic(f)
+			mt.rw = c08RW{memSock}
 		}
-	}
-	if _, err := tr.Connect(); err != nil {
-		return c08Anomaly("harness", "connect: "+err.Error())
+		tr = mt
+	} else {
+		if ws {
+			sink, err = c08WSSink()
+		} else {
+			sink, err = c08TCPSink()
+		}
+		if err != nil {
+			return c08Anomaly("harness", "sink: "+err.Error())
+		}
+		defer sink.stop()
+		tc.Address = sink.addr
+		if in.Component {
+			tr, err = xmpp.NewComponentTransport(tc)
+			if err != nil {
+				return c08Anomaly("harness", "transport: "+err.Error())
+			}
+		} else {
+			tr = xmpp.NewClientTransport(tc)
+		}
+		if in.Log {
+			if in.Seed%2 == 0 {
+				logrec = &c08LogRec{calls: map[string]int{}}
+				tr.LogTraffic(logrec)
+			} else {
+				// a real file, as Config.StreamLogger is
+				f, err := os.CreateTemp(c08OutDir(), "c08log")
+				if err != nil {
+					return c08Anomaly("harness", "log file: "+err.Error())
+				}
+				logfile = f
+				defer func() { f.Close(); os.Remove(f.Name()) }()
+				tr.LogTraffic(f)
+			}
+		}
+		if _, err := tr.Connect(); err != nil {
+			return c08Anomaly("harness", "connect: "+err.Error())
+		}
 	}
 	router := xmpp.NewRouter()
 	var snd c08Sender
@@ -858,11 +878,14 @@ func c08RunStress(in *c08In) Sx {
 			total += len(d)
 		}
 	}
-	base := sink.size() // the client's stream header / <open/>
-	deadline := time.Now().Add(3 * time.Second)
-	for base == 0 && time.Now().Before(deadline) {
-		time.Sleep(time.Millisecond)
-		base = sink.size()
+	base := 0
+	if !mem {
+		base = sink.size() // the client's stream header / <open/>
+		deadline := time.Now().Add(3 * time.Second)
+		for base == 0 && time.Now().Before(deadline) {
+			time.Sleep(time.Millisecond)
+			base = sink.size()
+		}
 	}
 	ctx, cancel := context.WithCancel(context.Background())
 	defer cancel()
@@ -905,34 +928,38 @@ func c08RunStress(in *c08In) Sx {
 	if len(errs) > 0 {
 		return c08Anomaly("send-error", fmt.Sprintf("%d sends failed on a healthy connection, first: %s", len(errs), errs[0]))
 	}
-	// every Send has returned: wait for the bytes, then a little longer for anything extra
-	deadline = time.Now().Add(15 * time.Second)
-	for sink.size() < base+total && time.Now().Before(deadline) {
-		time.Sleep(time.Millisecond)
-	}
-	time.Sleep(30 * time.Millisecond)
-	sink.mu.Lock()
-	buf := append([]byte{}, sink.buf...)
-	msgs := append([]string{}, sink.msgs...)
-	serr := sink.err
-	sink.mu.Unlock()
-	sink.stop()
-	go tr.Close() // waits up to ConnectTimeout for a stream close nobody sends
-	if serr != nil {
-		return c08Anomaly("sink", serr.Error())
-	}
 	// split what arrived into top-level elements
 	var elems []string
-	if ws {
-		if len(msgs) == 0 {
-			return c08Anomaly("lost", "nothing received")
-		}
-		elems = msgs[1:] // msgs[0] is the client's <open/>
+	if mem {
+		elems = memSock.since(0) // one element per Write call
 	} else {
-		var perr string
-		elems, perr = c08SplitStream(buf)
-		if perr != "" {
-			return c08Anomaly("torn", perr)
+		// every Send has returned: wait for the bytes, then a little longer for anything extra
+		deadline := time.Now().Add(15 * time.Second)
+		for sink.size() < base+total && time.Now().Before(deadline) {
+			time.Sleep(time.Millisecond)
+		}
+		time.Sleep(30 * time.Millisecond)
+		sink.mu.Lock()
+		buf := append([]byte{}, sink.buf...)
+		msgs := append([]string{}, sink.msgs...)
+		serr := sink.err
+		sink.mu.Unlock()
+		sink.stop()
+		go tr.Close() // waits up to ConnectTimeout for a stream close nobody sends
+		if serr != nil {
+			return c08Anomaly("sink", serr.Error())
+		}
+		if ws {
+			if len(msgs) == 0 {
+				return c08Anomaly("lost", "nothing received")
+			}
+			elems = msgs[1:] // msgs[0] is the client's <open/>
+		} else {
+			var perr string
+			elems, perr = c08SplitStream(buf)
+			if perr != "" {
+				return c08Anomaly("torn", perr)
+			}
 		}
 	}
 	seen := map[string]int{}
@@ -1171,7 +1198,7 @@ func (c08) Run(inp interface{}) Sx {
 		return c08RunSeq(in)
 	case "logger":
 		return c08RunLogger(in)
-	case "tcp", "ws":
+	case "tcp", "ws", "mem":
 		return c08RunStress(in)
 	}
 	return L(SBytes("unknown-mode"))
@@ -1221,7 +1248,7 @@ func (c08) Key(inp interface{}) (string, bool) {
 	in := inp.(*c08In)
 	hist("mode:" + in.Mode)
 	switch in.Mode {
-	case "tcp", "ws":
+	case "tcp", "ws", "mem":
 		k := fmt.Sprintf("%s c%v sm%v log%v %dx%d max%d seed%d", in.Mode, in.Component, in.SM, in.Log, in.Senders, in.PerSender, in.MaxLen, in.Seed)
 		hist(fmt.Sprintf("stress:%s component=%v sm=%v log=%v", in.Mode, in.Component, in.SM, in.Log))
 		return k, in.Senders >= 2 && in.PerSender >= 2
@@ -1440,6 +1467,15 @@ func (c08) Gen(r *rand.Rand, tier string) []interface{} {
 				return 2
 			})
 		}
+		out = append(out, in)
+	}
+	// concurrent senders, in memory: tiny stanzas, maximal contention on the send path
+	nmem := 24
+	if tier == "thorough" {
+		nmem = 200
+	}
+	for i := 0; i < nmem; i++ {
+		in := &c08In{Mode: "mem", SM: i%3 != 2, Component: i%3 == 2, Log: i%4 == 1, Senders: 2 + r.Intn(15), PerSender: 100 + r.Intn(400), MaxLen: 40, Seed: r.Int63n(1 << 30)}
 		out = append(out, in)
 	}
 	// real transports
